@@ -2,8 +2,9 @@
    Only statements closed by [exact]; proofs live in proof/S3Multipart{Names,Parts,NS,Proofs}.v.
    The model (model/S3Multipart.v) is faithful to the code as it is now — after the repairs of
    completeMultipartUpload (numeric part order, explicit listing limit), doDeleteEmptyDirectories,
-   CopyObject (source status) and CopyObjectPart (upload must exist) — INCLUDING its remaining
-   defects (known findings 0..6); every full statement that the code still violates comes as
+   CopyObject (source status), CopyObjectPart (upload must exist) and of the part-number test of
+   PutObjectPart / CopyObjectPart (1..10000; former finding 5) — INCLUDING its remaining
+   defects (known findings 0..4 and 6; the number 5 is not reused); every full statement that the code still violates comes as
    _partial (under a decidable trigger) + _refuted.  The triggers of the history theorem are raised
    per request by the model run (the flag list of [run]), never history-wide. *)
 From Coq Require Import List NArith ZArith Bool String.
@@ -163,16 +164,16 @@ Print Assumptions c28_delete_exact_batch.
    positive chunk size, every history of PUT / streaming PUT / copy / GET (whole and ranged) /
    DELETE / batch delete / multipart create, part upload, part copy, complete (with ANY part list in
    the request body), abort, list requests with non-empty keys and ANY part numbers, on which NO
-   known-finding trigger (0..6) fires — the triggers are raised per request by the model run, so
+   known-finding trigger (0..4, 6) fires — the triggers are raised per request by the model run, so
    the hypothesis [run .. = (rs, [], fin)] says that no single request of the history is inside a
    trigger set: every answer meets the flat key -> bytes specification — GET and ListParts payloads,
    and the status class of every write (EOk: acknowledged; EFail: refused, e.g. a tampered chunk
-   signature, a missing copy source, a dead upload, a part number above the gateway's maximum) —
+   signature, a missing copy source, a dead upload, a part number outside 1..10000: no hypothesis
+   about part numbers is needed since the repair of former finding 5) —
    where a completed upload is the concatenation of the parts its request lists (which must be
    uploaded parts in ascending part-number order); and at the end the file entries under the
    bucket are exactly the specification's objects.
-   This is the _partial statement of findings 5 (c28_part_range_refuted) and 6
-   (c28_complete_part_list_refuted) as well as of 0..4. *)
+   This is the _partial statement of finding 6 (c28_complete_part_list_refuted) as well as of 0..4. *)
 Theorem c28_history_refines_spec : forall c ops rs fin es sfin,
   0 < c_chunk c -> forallb op_in_domain ops = true ->
   run c init_state ops = (rs, [], fin) -> srun sinit ops = (es, sfin) ->
@@ -204,19 +205,40 @@ Theorem c28_complete_full_list : forall h,
 Proof. exact pick_all. Qed.
 Print Assumptions c28_complete_full_list.
 
-(* finding 5: part numbers 0 and 10001..100000 are accepted *)
-Theorem c28_part_range_refuted :
+(* former finding 5, repaired in the code (PutObjectPartHandler / CopyObjectPartHandler refuse
+   partID < 1 || partID > globalMaxPartID = 10000): FULL statement over every configuration and every
+   state — a part upload, streaming part upload or part copy with a number outside 1..10000 is
+   refused, raises no trigger and changes nothing .. *)
+Theorem c28_part_number_range : forall c st o n, part_op_number o = Some n -> valid_part n = false ->
+  exists r, step c st o = (st, r, []) /\ refusal r = true.
+Proof. exact part_number_range. Qed.
+Print Assumptions c28_part_number_range.
+
+(* .. the gateway's test IS the S3 range .. *)
+Theorem c28_part_refused_iff : forall n, part_refused n = negb (valid_part n).
+Proof. exact part_refused_valid. Qed.
+Print Assumptions c28_part_refused_iff.
+
+(* .. and inside the range a part upload to a live upload is acknowledged and stored *)
+Theorem c28_part_number_accepted : forall c st u up d n b,
+  get_upload st u = Some up -> u_dir up = Some d -> valid_part n = true ->
+  step c st (MpPut u n b) =
+    (set_updir st u up (Some (dir_put (part_name n) (store_body c b) d)), ROk, []).
+Proof. exact part_number_accepted. Qed.
+Print Assumptions c28_part_number_accepted.
+
+(* the former witness of finding 5 now meets the specification (no trigger, ListParts = part 1) *)
+Example c28_part_range_repaired :
   let kf := ["f"%string] in
-  let ops := [MpCreate kf; MpPut 0 0 [7]; MpPut 0 1 [1]; MpPut 0 10001 [9]; MpList 0;
-              MpComplete 0 [0; 1; 10001]; Get kf None] in
+  let ops := [MpCreate kf; MpPut 0 0 [7]; MpPut 0 1 [1]; MpPut 0 10001 [9]; MpPut 0 100000 [8]; MpList 0;
+              MpComplete 0 [1]; Get kf None] in
   forallb op_in_domain ops = true /\
   run cfg_plain init_state ops =
-    ([ROk; ROk; ROk; ROk; RParts [(1, 1); (10001, 1)]; ROk; RData [7; 1; 9]], [5; 5],
-     snd (run cfg_plain init_state ops)) /\
-  fst (srun sinit ops) = [EOk; EFail; EOk; EFail; EParts [(1, 1)]; EFail; ENotFound] /\
-  all2 meets (fst (srun sinit ops)) (fst (fst (run cfg_plain init_state ops))) = false.
-Proof. exact part_range_refuted. Qed.
-Print Assumptions c28_part_range_refuted.
+    ([ROk; RErr; ROk; RErr; RErr; RParts [(1, 1)]; ROk; RData [1]], [], snd (run cfg_plain init_state ops)) /\
+  fst (srun sinit ops) = [EOk; EFail; EOk; EFail; EFail; EParts [(1, 1)]; EOk; EData [1]] /\
+  all2 meets (fst (srun sinit ops)) (fst (fst (run cfg_plain init_state ops))) = true.
+Proof. exact part_range_repaired. Qed.
+Print Assumptions c28_part_range_repaired.
 
 (* non-vacuity *)
 Example c28_multipart_example :
